@@ -103,6 +103,8 @@ func checkC05(c *Ctx) {
 			}
 		}
 	}, "R05.2", "Failover.Get:background-result-under-own-key", []string{"R04.4"}, "BackendWrite", "ErrorsWrite")
+	// "until FailedUpdateTTL (minus jitter) has elapsed": the jitter a Write applies is the documented T + J·T·(r − 1/2) (C10 R10.2)
+	c.borrowKinds("C10", func() { c.c10Jitter() }, "R05.6", "Trait.TTL:jitter", []string{"R10.2"}, "jitter-formula", "rand-count", "jitter-untested", "jitter-when-disabled")
 	c.c05FailureCacheKept()
 }
 
